@@ -42,10 +42,13 @@ def minimise(binary, prog, still_fails):
     return cur
 
 
-def judge(binary, lines, timeout=600, events=False, shards=None):
+def judge(binary, lines, timeout=600, events=False, shards=None, cluster=False):
     env = core.goenv()
     if events:
         env["VERIF_EVENTS"] = "1"
+    if cluster:
+        # C14: every command goes through the cluster codec path (server.VerifClusterRoundTrip) instead of Manager.ExecCommand
+        env["VERIF_CLUSTER_PATH"] = "1"
     if shards:
         env["VERIF_SHARDS"] = str(shards)
     obs, crashes, se = core.run_harness_resilient(binary, "exec", lines, timeout=timeout, env=env)
@@ -53,7 +56,8 @@ def judge(binary, lines, timeout=600, events=False, shards=None):
     return obs, d, crashes, se
 
 
-def run_exec_suite(R, ctx, name, gens, nprog, corpus, what, keys=None, maxlen=40, extra_lines=None, events=False, shards=None):
+def run_exec_suite(R, ctx, name, gens, nprog, corpus, what, keys=None, maxlen=40, extra_lines=None, events=False, shards=None,
+                   cluster=False):
     R.rule = ("programs: 1-%d commands over a small colliding key alphabet (case variants, empty key, CR/LF and binary keys), generated from the "
               "command family's grammar with mostly-valid arguments plus arity/option damage; after every command the reply bytes and the dump of "
               "the touched keys (every 10th command and the last: the whole keyspace and its counter) are compared with the Lean model. "
@@ -73,7 +77,7 @@ def run_exec_suite(R, ctx, name, gens, nprog, corpus, what, keys=None, maxlen=40
         # the same programs under several stripe counts (colliding stripes); results concatenated
         obs, crashes, se, mism, unk, secs, pos_total = [], 0, "", [], [], 0.0, 0
         for sh in shards:
-            o, dd, c, s_ = judge(binary, lines, events=events, shards=sh)
+            o, dd, c, s_ = judge(binary, lines, events=events, shards=sh, cluster=cluster)
             off = len(obs)
             for m in dd["mismatches"]:
                 f = m.split(" ", 2)
@@ -86,7 +90,7 @@ def run_exec_suite(R, ctx, name, gens, nprog, corpus, what, keys=None, maxlen=40
             pos_total += int(dd["summary"].get("positive", 0))
         d = dict(mismatches=mism, unknown=unk, seconds=secs, summary=dict(positive=str(pos_total)))
     else:
-        obs, d, crashes, se = judge(binary, lines, events=events)
+        obs, d, crashes, se = judge(binary, lines, events=events, cluster=cluster)
     dist = collections.Counter(cmd_of(l) for l in obs if l.startswith("X"))
     errs = sum(1 for l in obs if " => " in l and l.split(" => ")[1].split()[2:3] and l.split(" => ")[1].split()[2].startswith("2d"))
     distinct = len(set(l.split(" => ")[0].split(" ", 2)[2] for l in obs if l.startswith("X") and len(l.split(" => ")[0].split(" ", 2)) > 2))
@@ -113,7 +117,7 @@ def run_exec_suite(R, ctx, name, gens, nprog, corpus, what, keys=None, maxlen=40
         prog = program_of(obs, lineno) if lineno else []
 
         def still_fails(cand):
-            o2, d2, c2, _ = judge(binary, cand, timeout=60, events=events, shards=(shards[0] if shards else None))
+            o2, d2, c2, _ = judge(binary, cand, timeout=60, events=events, shards=(shards[0] if shards else None), cluster=cluster)
             return any(int(m.split()[1]) == len(cand) for m in d2["mismatches"] if m.split()[1].isdigit()) or c2 > 0
         if prog and len(prog) <= 60:
             try:
@@ -123,7 +127,7 @@ def run_exec_suite(R, ctx, name, gens, nprog, corpus, what, keys=None, maxlen=40
         final = mm
         if prog:
             try:
-                _o, _d, _c, _ = judge(binary, prog, timeout=60, events=events, shards=(shards[0] if shards else None))
+                _o, _d, _c, _ = judge(binary, prog, timeout=60, events=events, shards=(shards[0] if shards else None), cluster=cluster)
                 if _d["mismatches"]:
                     final = _d["mismatches"][-1]
             except Exception:
@@ -131,6 +135,7 @@ def run_exec_suite(R, ctx, name, gens, nprog, corpus, what, keys=None, maxlen=40
         readable = [" ".join(repr(core.unhx(a))[2:-1] for a in l.split()[2:]) if l.startswith("X") else l for l in prog]
         R.violation("%s-%s" % (name, sig), dict(
             kind="impl-violates-spec", engine="exec", summary=final[:500], first_seen=mm[:500], lines=prog, program=readable,
+            env=({"VERIF_CLUSTER_PATH": "1"} if cluster else {}),
             explanation="the implementation's reply or resulting keyspace differs from the Lean model of the command reference on this program "
                         "(minimised); expected/got in the summary. PANIC/HANG/NIL mean the executor crashed, did not answer within 10 s, or returned no reply."))
     if ctx.broken and not d["mismatches"]:
